@@ -384,7 +384,7 @@ func (d *Data) handleIndex(ctx *datastore.VersionedCtx, w http.ResponseWriter, r
 			return
 		}
 		if len(idx.Blocks) == 0 {
-			if err := deleteLabelIndex(ctx, label); err != nil {
+			if err := DeleteLabelIndex(d, ctx.VersionID(), label); err != nil {
 				server.BadRequest(w, r, err)
 				return
 			}
